@@ -2,6 +2,7 @@
    (unwrap/expect, checked indexing, usize underflow, push on a full ArrayVec) and
    an exhausted loop bound are `Bug site` values as well; totality is the statement
    that they are unreachable.  Statements only. *)
+From EP Require Parse.ConstsOk.
 From EP Require Import Base.Bytes Parse.Types Parse.Slices Parse.Cursor Parse.View
   Parse.WireSpec Parse.StrictProofs.
 
